@@ -411,6 +411,32 @@ class EvalCase(Case):
             U, T, L, cfg['clip']), {}
 
 
+_HISTORY_SCRIPT = """
+import numpy as np
+kw = args[0]
+ly = mod('kronecker_factored_lattice_layer')
+failing = []
+rs = np.random.RandomState(0)
+layer = ly.KroneckerFactoredLattice(**kw['init'])
+layer.build(kw['shape'])
+for trial in range(6):
+  scale = rs.uniform(0.5, 2.0, size=layer.scale.shape).astype('float32') * rs.choice([-1.0, 1.0], size=layer.scale.shape).astype('float32')
+  layer.scale.assign(scale)
+  K = tf.constant(rs.uniform(-2, 2, size=layer.kernel.shape).astype('float32'))
+  for nm, kc in (('kernel.constraint', layer.kernel.constraint), ('final-kernel-constraints', getattr(layer, '_final_kernel_constraints', None))):
+    if kc is None:
+      continue
+    got = np.asarray(kc(K))
+    want = np.asarray(type(kc)(**dict(kc.get_config(), scale=tf.constant(scale)))(K))
+    if np.abs(got - want).max() > 1e-5:
+      failing.append('%s after the scale was set to %s: differs from the constraint of the current scale by %.4g' % (
+          nm, scale.ravel().round(3).tolist(), float(np.abs(got - want).max())))
+  if failing:
+    break
+result = failing[:3]
+"""
+
+
 class LayerHistoryCase(Case):
   """The constraints the real build() attaches, after the scale variable has been UPDATED: the property allows scale signs
   to change between updates, so the kernel constraint (training-time and final) must read the live scale, not the value
@@ -421,6 +447,21 @@ class LayerHistoryCase(Case):
 
   def setup(self, cfg, c):
     c.sort_mode = 'abstract'
+
+  def replay_desc(self, cfg, model, g):
+    L, U, D, T = cfg['L'], cfg['units'], cfg['dims'], cfg['terms']
+    lo = 0.0 if cfg['bounds'] in ('min', 'both') else None
+    hi = 2.0 if cfg['bounds'] in ('max', 'both') else None
+    init = dict(lattice_sizes=L, units=U, num_terms=T, monotonicities=list(cfg['monos']) if any(cfg['monos']) else None,
+                output_min=lo, output_max=hi)
+    return {'kind': 'script', 'code': _HISTORY_SCRIPT, 'floatx': 'float32',
+            'args': [{'init': init, 'shape': [None, D] if U == 1 else [None, U, D]}], 'kwargs': {}}
+
+  def replay_eval(self, cfg, model, g, desc, nat):
+    failing = ['native run raised ' + nat['error'][:200]] if 'error' in nat else list(nat.get('ok') or [])
+    return {'desc': {'kind': 'real layer, scale variable reassigned with random signs, the layer constraint objects against '
+                             'fresh ones built from the current scale', 'layer': desc['args'][0]},
+            'native': {k: v for k, v in nat.items() if k != 'trace'}, 'failing': failing}
 
   def body(self, cfg, c):
     from vt import kerasc
